@@ -14,8 +14,8 @@ RULE = ('same history generator as C15 (two keys of 6 algorithms, each starting 
         'fingerprint, components and signature multiset with the private key, refusal of sign/certify/revoke/revoker/decrypt/add_subkey/bind on every public object. '
         'Non-trivial: twin of a key with >=1 subkey taken while unlocked or after >=2 steps, or an early twin re-inspected after a later addition; distinct by '
         'operation-name sequence.')
-ASSUMPTIONS = ['secret integers are those of the committed key pool (made with cryptography, not PGPy)', 'for twins taken earlier only the no-secret and refusal clauses are '
-               'asserted (the statement does not promise that they track later additions)']
+ASSUMPTIONS = ['secret integers are those of the committed key pool (made with cryptography, not PGPy)', 'for twins taken earlier the no-secret and refusal clauses are asserted, and that the twin shows a state the private key has had (then or now, not a mixture) '
+               '-- the statement does not say that they track later additions']
 
 
 def _start_classes(case):
